@@ -167,6 +167,13 @@ pub fn interesting_varints() -> Vec<usize> {
         }
     }
     v.extend([u32::MAX as usize, u32::MAX as usize - 1, 1 << 31, (1 << 28) + 1000, 1 << 29]);
+    // far beyond the scan: every power of two up to 2^63 (±1, +5, + each in-range boundary): a helper that
+    // narrows its argument (`as u32`, `as u16`) maps these back into the accepted range
+    for k in 28..64u32 {
+        let p = 1usize << k;
+        v.extend([p - 1, p, p + 1, p + 5, p + 127, p + 128, p + 16_384, p + 2_097_152, p + 268_435_455]);
+    }
+    v.extend([usize::MAX, usize::MAX - 1, usize::MAX - 127, (1usize << 32) * 3 + 7, (1usize << 40) + (1 << 20)]);
     v.sort();
     v.dedup();
     v
@@ -253,6 +260,20 @@ pub fn c15(tier: &str, seed: u64, ops: Option<&[String]>) -> Report {
             match h.join() {
                 Ok(r) => rep.merge(r),
                 Err(_) => rep.fail("varint-panic", "vi <n>".into(), "a helper panicked during the exhaustive scan".into()),
+            }
+        }
+        // … and, beyond the scanned range, the sparse set of huge arguments (powers of two up to 2^63 etc.)
+        for n in interesting_varints() {
+            if n > (1 << 28) + 8 {
+                let r = std::panic::catch_unwind(|| {
+                    let mut one = Report::new("C15", "");
+                    check_varint_value(n, &mut one);
+                    one
+                });
+                match r {
+                    Ok(one) => rep.merge(one),
+                    Err(_) => rep.fail("varint-panic", format!("vi {}", n), "a length helper panicked".into()),
+                }
             }
         }
         rep.exhaustive = true;
